@@ -114,14 +114,25 @@ def replay_variant(col, case, variant):
             # the corners handed over as 0-d arrays (e.g. `da.min().values`), the SAME objects used for two requests
             args = [np.array(v) for v in (lat_min, lon_min, lat_max, lon_max)]
             try:
+                ref = (lats.copy(), lons.copy(), z.copy())
                 first = SRTM30.elevation(*args)
+                # ... and between the two requests the client post-processes what it was given, in place (0..360 longitudes,
+                # flipped latitudes, masked heights): the arrays are the client's, the next answer must not know of it
+                same_first = all(np.array_equal(a, b) for a, b in zip(first, ref))
+                for arr in first:
+                    if arr.flags.writeable:
+                        arr += 360
+                        arr[...] = arr[::-1]
                 second = SRTM30.elevation(*args)
+                lats, lons, z = ref
+                first = ref if same_first else (ref[0] + 1, ref[1], ref[2])
                 col.count(1)
                 if [float(a) for a in args] != [lat_min, lon_min, lat_max, lon_max]:
                     col.violation("elevation-overwrites-its-arguments", dict(rep, observed=[float(a) for a in args]))
                 elif not all(np.array_equal(a, b) for a, b in zip(first, (lats, lons, z))) \
                         or not all(np.array_equal(a, b) for a, b in zip(second, (lats, lons, z))):
-                    col.violation("elevation-differs-for-0d-array-corners", dict(rep, observed=[first[0][:2].tolist(), second[0][:2].tolist()]))
+                    col.violation("elevation-differs-for-0d-array-corners", dict(rep, observed=[first[0][:2].tolist(), second[0][:2].tolist()],
+                                                                                    note="the client changed the first answer's arrays in place before the second request"))
             except Exception as ex:
                 col.violation("elevation-raises-" + type(ex).__name__ + "-0d-array-corners", dict(rep, observed=repr(ex)[:200]))
         names = SRTM30.get_tiles(lat_min, lon_min, lat_max, lon_max)
@@ -162,7 +173,7 @@ def cache_history(col, case):
     def content(name):
         t = 1 if name == names[1] else 2
         return (np.arange(H * W).reshape(H, W) * 3 + 100 * t).astype(">i2")
-    root = tempfile.mkdtemp(prefix="verif-c20-")
+    root = tempfile.mkdtemp(prefix="verif-c20-[v2.1]*?-")      # a legal directory name; brackets, asterisk, question mark
     saved = (TP._data_path, TP.urllib, SRTM30._tile_height, SRTM30._tile_width)
     started = []
     fail_next = [False]
